@@ -16,7 +16,7 @@ import (
 	"github.com/dominant-strategies/go-quai/params"
 )
 
-var evCreateEndings = []string{"code", "ef", "oversize", "revert", "invalid", "stop"}
+var evCreateEndings = []string{"code", "ef", "oversize", "revert", "invalid", "stop", "storeoog"}
 
 // evInitCode: constructor = [ETX of ev] [SSTORE] ending
 func evInitCode(emit bool, ev uint64, ending string, maxCode int) []byte {
@@ -38,6 +38,8 @@ func evInitCode(emit bool, ev uint64, ending string, maxCode int) []byte {
 		a.b = append(a.b, 0xfe) // the designated invalid opcode
 	case "stop":
 		a.op(vm.STOP)
+	case "storeoog": // returns 2000 bytes of code: the deposit (200 gas a byte) is more than the frame has left
+		a.pushN(2000).pushN(0).op(vm.RETURN)
 	}
 	return a.b
 }
@@ -62,6 +64,10 @@ func evOneCreate(o *h.Out, rc *h.Rng, ans func(string)) {
 		balance = uint64(rc.Intn(int(endow))) // cannot afford the endowment
 	}
 	nested := rc.Bool()
+	gas := uint64(20_000_000)
+	if ending == "storeoog" {
+		gas = 300_000 // enough for the constructor (ETX, SSTORE), not for storing 2000 bytes of code
+	}
 	init := evInitCode(emit, ev, ending, maxCode)
 	creator := evContract(1)
 	env.sdb.CreateAccount(creator)
@@ -69,7 +75,7 @@ func evOneCreate(o *h.Out, rc *h.Rng, ans func(string)) {
 	creatorAddr := common.NewAddressFromData(&creator)
 	// the created address depends on the init code: pad it (after its last instruction) until the address lies in
 	// this zone's Quai ledger, so that the interpreter's own bounded address grinding is not what decides the outcome
-	init, _ = grindCreate(creatorAddr, 0, init, evLoc)
+	init, expectedAddr := grindCreate(creatorAddr, 0, init, evLoc)
 	o.Op("create nested=%s balance=%d endow=%d emit=%s ev=%d ending=%s", b01(nested), balance, endow, b01(emit), ev, ending)
 	var created common.Address
 	ok := false
@@ -89,17 +95,20 @@ func evOneCreate(o *h.Out, rc *h.Rng, ans func(string)) {
 			panic(fmt.Sprintf("factory prefix is %d bytes", len(pre.b)))
 		}
 		env.sdb.SetCode(creator, append(pre.b, init...))
-		ret, _, _, err := env.evm.Call(vm.AccountRef(common.NewAddressFromData(ptr(evContract(0xee)))), creatorAddr, nil, 20_000_000, new(big.Int))
+		ret, _, _, err := env.evm.Call(vm.AccountRef(common.NewAddressFromData(ptr(evContract(0xee)))), creatorAddr, nil, gas, new(big.Int))
 		if err == nil && len(ret) == 32 && new(big.Int).SetBytes(ret).Sign() != 0 {
 			ok = true
 			created = common.BytesToAddress(ret[12:], evLoc)
 		}
 	} else {
-		_, addr, _, _, err := env.evm.Create(vm.AccountRef(creatorAddr), init, 20_000_000, new(big.Int).SetUint64(endow))
+		_, addr, _, _, err := env.evm.Create(vm.AccountRef(creatorAddr), init, gas, new(big.Int).SetUint64(endow))
 		ok, created = err == nil, addr
 		if err != nil && os.Getenv("QVH_DEBUG") != "" {
 			fmt.Fprintln(os.Stderr, "create error:", err, "ending", ending, "pt", pt)
 		}
+	}
+	if !ok {
+		created = expectedAddr // a failed creation reports no address: look at the one it would have used
 	}
 	debit := new(big.Int).Sub(new(big.Int).SetUint64(balance), env.sdb.GetBalance(creator))
 	createdBal, exists, codeLen := new(big.Int), false, 0
@@ -119,7 +128,11 @@ func evOneCreate(o *h.Out, rc *h.Rng, ans func(string)) {
 		}
 	} else {
 		if debit.Sign() != 0 || len(es) != 0 || createdBal.Sign() != 0 || codeLen != 0 {
-			o.Violate("c05-create-failure-with-effect", fmt.Sprintf("creation (%s) failed but creator debited %s, created account holds %s / code %d bytes, ETXs recorded %v", ending, debit, createdBal, codeLen, es))
+			sig := "c05-create-failure-with-effect"
+			if ending == "storeoog" {
+				sig += ":storeoog" // known finding: a creation that cannot pay the code deposit fails without being undone
+			}
+			o.Violate(sig, fmt.Sprintf("creation (%s) failed but creator debited %s, created account holds %s / code %d bytes, ETXs recorded %v", ending, debit, createdBal, codeLen, es))
 		}
 	}
 	if want := (ending == "code" || ending == "stop") && balance >= endow; want != ok {
